@@ -2,7 +2,7 @@
 # usage: seedmatrix.sh <out-file> [verif-seed...]   (default seeds: 1 2 3)
 # Sensitivity matrix: every seeded change under /verif/seeded is applied in a scratch worktree (never /repo) and its
 # property's quick check is run by generation alone (no regression corpus) once per VERIF_SEED value.
-OUT=$1; shift; SEEDS=${*:-1 2 3}
+OUT=$(realpath -m "$1"); shift; SEEDS=${*:-1 2 3}
 HERE=$(cd "$(dirname "$0")" && pwd)
 WT=/tmp/seedwt/matrix-$$
 cd /repo && git worktree remove --force $WT 2>/dev/null; git worktree add --detach $WT HEAD >/dev/null 2>&1 || exit 2
